@@ -151,7 +151,7 @@ def finish(ctx, siblings, t0, seed, cached, quiet=False):
         out.append('NOTE      %-8s %s  %s' % (n['rule'], n['where'], n['text']))
     for o in listed:
         out.append('KNOWN-FINDING: property=%s %s at %s: %s' % (ctx.prop, o['key'], o['where'], open_keys[o['key']].get('what', o['detail'])))
-    vdir = os.path.join(VERIF, 'evidence', 'violations')
+    vdir = os.path.join(VERIF, 'evidence', 'violations') if not os.environ.get('FCVERIF_NO_EVIDENCE') else os.path.join(X.WORK, 'mutant-violations')
     replay_paths = []
     if unlisted:
         os.makedirs(vdir, exist_ok=True)
@@ -208,9 +208,10 @@ def finish(ctx, siblings, t0, seed, cached, quiet=False):
         'violations': len(unlisted),
     }
     ev.update(getattr(ctx, 'extra_evidence', {}))
-    os.makedirs(os.path.join(VERIF, 'evidence'), exist_ok=True)
-    with open(os.path.join(VERIF, 'evidence', '%s.json' % ctx.prop), 'w') as f:
-        json.dump(ev, f, indent=1)
+    if not os.environ.get('FCVERIF_NO_EVIDENCE'):
+        os.makedirs(os.path.join(VERIF, 'evidence'), exist_ok=True)
+        with open(os.path.join(VERIF, 'evidence', '%s.json' % ctx.prop), 'w') as f:
+            json.dump(ev, f, indent=1)
     if not quiet:
         print('%s: %d rule instances, %d sites, %d violations (%d known), %.1fs, facts %s%s' % (
             ctx.prop, len(ctx.obligations), len(sites), len(unlisted), len(listed), wall, ctx.facts_key,
